@@ -400,6 +400,16 @@ def exc_id(e):
     return "other:%s:%s" % (type(e).__name__, e)
 
 
+def _walk(node, parent=None):
+    yield node, parent
+    for c in node.get("children", []):
+        yield from _walk(c, node)
+
+
+def _names(sc):
+    return {n["name"] for n, _ in _walk(sc["tree"])}
+
+
 def build(sc):
     objs = {}
 
@@ -416,6 +426,11 @@ def build(sc):
     top = mk(sc["tree"])
 
     late = sc.get("late") or {}
+    final = {(n["name"], r) for n, _ in _walk(sc["tree"]) for r in n.get("req", [])}
+    # (`sc["tree"]` is the final graph whatever the shrinker did to it: a late edge that is no longer a requirement
+    # there is dropped, a removed pair that has become one is left in place)
+    late = dict(late, edges=[e for e in late.get("edges", []) if tuple(e) in final and e[0] in _names(sc) and e[1] in _names(sc)],
+                removed=[e for e in late.get("removed", []) if tuple(e) not in final and e[0] in _names(sc) and e[1] in _names(sc)]) if late else late
     late_add = {(a, b) for a, b in late.get("edges", [])}
 
     def link(node):
